@@ -306,7 +306,7 @@ theorem fromSquares_go_noPanic (basis : Array W) (n i : Nat) (rest : List (List 
         · rename_i e he; intro site hc; cases hc; exact fromSquares_pieces_noPanic _ _ _ _ site he
         · exact ih _ _
 
-theorem new_ok (cfg : Cfg) (h3 : 3 ≤ cfg.size) (h8 : cfg.size ≤ 8) : ∃ p, Pos.new cfg = .ok p := by
+theorem new_ok_text (cfg : Cfg) (h3 : 3 ≤ cfg.size) (h8 : cfg.size ≤ 8) : ∃ p, Pos.new cfg = .ok p := by
   unfold Pos.new
   have : ¬ cfg.size ≥ Facts.defaultPieces.length := by simp [Facts.defaultPieces]; omega
   simp only [this, if_false]
@@ -318,7 +318,7 @@ theorem fromSquares_noPanic (basis : Array W) (cfg : Cfg) (board : List (List Na
     (h3 : 3 ≤ cfg.size) (h8 : cfg.size ≤ 8) (hb : cfg.size * cfg.size ≤ board.length) :
     NoPanic (Pos.fromSquares basis cfg board move) := by
   unfold Pos.fromSquares
-  obtain ⟨p0, hp0⟩ := new_ok cfg h3 h8
+  obtain ⟨p0, hp0⟩ := new_ok_text cfg h3 h8
   rw [hp0]
   change NoPanic (if board.length < cfg.size * cfg.size then _ else _)
   have : ¬ board.length < cfg.size * cfg.size := by omega
